@@ -29,3 +29,9 @@ claim("C16",
   "Histories of 1-6 RegisterName messages with colliding names, both TLDs, ordinary and arithmetic-boundary year counts, poor and rich registrants, heights before/at/long after the previous expiry. Oracle per message: failure moves no funds; success debits exactly Y x yearly(len,tld) to the protocol-liquidity account and nobody else, the name resolves to the registrant, expiry >= height + Y x 5,484,530 (exactly old + Y x 5,484,530 for a live renewal), live names are refused to non-owners. Three defects found this way (expired-name terms, int64 wrap) are fixed in /repo (aee1d769) and replayed as plain regression cases on every run.",
   "The price table is copied into the oracle; height == Expires is accepted under either reading; fork mode without ante handler.",
   "DESIGN.md section 4 C16")
+
+claim("C15",
+  "model-based stateful property test (rapid state machine) with a conservation invariant over the real bank keeper",
+  "Histories of init / shutdown / re-init / double shutdown by 4 accounts with balances around the price, interleaved with CollateralPrice changes in both directions; after every step the escrow account balance must equal the sum of Collateral records and the model, init debits exactly the current price, shutdown credits exactly the recorded amount once and removes provider and record. Falsification only.",
+  "CollateralPrice is changed through the keeper's SetParams (values the validator accepts) standing in for governance; fork mode without ante handler.",
+  "DESIGN.md section 4 C15")
